@@ -341,6 +341,253 @@ theorem bounded_cache_meets_contract (σ σ' : St) (hi : Inv σ) (hs : ∃ s, st
       exact Or.inr (by rw [hheld]; exact List.erase_sublist)
     · cases hs
 
+/-! ### payloads: every response is written through its own object only
+
+The objects are buffers now.  A request (thread) `t` has a payload `pay t`; after acquiring an
+object it `Reset`s it (compress.go:125/130, request.go:82: the buffer starts empty) and writes its
+payload through it byte by byte — any number of other threads doing the same in between, in any
+order —; at `Close` the content of the buffer is what `t`'s client receives (`out`), and the object
+goes back to the provider.  `sent t o` is the thread's own view: the bytes it has handed to `o`
+since it acquired it.  `buf o` is what is really in the object.  That the two agree — no byte of
+another request ever shows up in `t`'s object, none of `t`'s bytes is lost — is not a property of
+the buffers: it holds because no object is ever held twice (`C13_exclusive`); `own_payload_needs_exclusive`
+below shows what happens otherwise. -/
+
+abbrev Byte := Nat
+
+structure BSt where
+  core : St
+  /-- content of each object since its last `Reset` -/
+  buf  : Obj → List Byte
+  /-- ghost: what thread `t` has written through `o` since it acquired it -/
+  sent : Tid → Obj → List Byte
+  /-- responses delivered, newest first: at `Close` the buffer is what `t`'s client gets -/
+  out  : List (Tid × List Byte)
+
+inductive BStep where
+  | acquire (t : Tid)               -- provider call + `Reset`
+  | write (t : Tid) (o : Obj)       -- `t` writes the next byte of its payload through `o`
+  | release (t : Tid) (o : Obj)     -- `Close`: deliver, then the provider call
+  deriving Repr, DecidableEq
+
+def upd {β : Type} (f : Obj → β) (o : Obj) (v : β) : Obj → β := fun x => if x = o then v else f x
+
+def upd2 {β : Type} (f : Tid → Obj → β) (t : Tid) (o : Obj) (v : β) : Tid → Obj → β :=
+  fun t' x => if t' = t ∧ x = o then v else f t' x
+
+/-- one step; `none` = not enabled (a thread can write through and release only what it holds) -/
+def bstep (pay : Tid → List Byte) (σ : BSt) : BStep → Option BSt
+  | .acquire t =>
+    let r := acquire σ.core t
+    some { σ with core := r.1, buf := upd σ.buf r.2 [], sent := upd2 σ.sent t r.2 [] }
+  | .write t o =>
+    if (t, o) ∈ σ.core.held then
+      match (pay t)[(σ.sent t o).length]? with
+      | none => some σ                                   -- payload complete: nothing left to write
+      | some b => some { σ with buf := upd σ.buf o (σ.buf o ++ [b]), sent := upd2 σ.sent t o (σ.sent t o ++ [b]) }
+    else none
+  | .release t o =>
+    if (t, o) ∈ σ.core.held then
+      some { σ with core := release σ.core t o, out := (t, σ.buf o) :: σ.out }
+    else none
+
+def brun (pay : Tid → List Byte) (σ : BSt) : List BStep → BSt
+  | [] => σ
+  | s :: rest => brun pay ((bstep pay σ s).getD σ) rest
+
+def binit (cap : Nat) : BSt := { core := init cap, buf := fun _ => [], sent := fun _ _ => [], out := [] }
+
+inductive BReachable (pay : Tid → List Byte) (cap : Nat) : BSt → Prop
+  | init : BReachable pay cap (binit cap)
+  | step {σ σ' : BSt} (s : BStep) : BReachable pay cap σ → bstep pay σ s = some σ' → BReachable pay cap σ'
+
+/-- the provider's part of a step (a write is none) -/
+def BStep.toStep : BStep → Option Step
+  | .acquire t => some (.acquire t)
+  | .write _ _ => none
+  | .release t o => some (.release t o)
+
+/-- the provider underneath does exactly what the protocol model says: writes do not touch it -/
+theorem bstep_core {pay : Tid → List Byte} {σ σ' : BSt} (s : BStep) (h : bstep pay σ s = some σ') :
+    (match s.toStep with
+     | none => σ'.core = σ.core
+     | some s' => step σ.core s' = some σ'.core) := by
+  cases s with
+  | acquire t =>
+    simp only [bstep, Option.some.injEq] at h
+    subst h; rfl
+  | write t o =>
+    simp only [bstep] at h
+    split at h
+    · split at h <;> (simp only [Option.some.injEq] at h; subst h; rfl)
+    · cases h
+  | release t o =>
+    simp only [bstep] at h
+    split at h
+    · rename_i hm
+      simp only [Option.some.injEq] at h
+      subst h
+      simp [BStep.toStep, step, hm]
+    · cases h
+
+theorem breachable_core {pay : Tid → List Byte} {cap : Nat} {σ : BSt} (h : BReachable pay cap σ) :
+    Reachable cap σ.core := by
+  induction h with
+  | init => exact Reachable.init
+  | @step σ₁ σ₂ s _ hs ih =>
+    have := bstep_core s hs
+    cases hts : s.toStep with
+    | none => rw [hts] at this; rw [this]; exact ih
+    | some s' => rw [hts] at this; exact Reachable.step s' ih this
+
+/-- exclusivity in every reachable state of the buffer model: literally `C13_exclusive`, for the
+    schedule of provider calls that led there -/
+theorem breachable_exclusive {pay : Tid → List Byte} {cap : Nat} {σ : BSt} (h : BReachable pay cap σ) :
+    Inv σ.core := by
+  obtain ⟨sched, hs⟩ := (reachable_iff_run cap σ.core).mp (breachable_core h)
+  rw [← hs]
+  exact C13_exclusive cap sched
+
+/-- what `C13_own_payload` claims of a state -/
+def Own (pay : Tid → List Byte) (σ : BSt) : Prop :=
+  (∀ p ∈ σ.core.held, σ.buf p.2 = σ.sent p.1 p.2 ∧ σ.buf p.2 <+: pay p.1) ∧
+  (∀ d ∈ σ.out, d.2 <+: pay d.1)
+
+theorem prefix_snoc_getElem? {l p : List Byte} {b : Byte} (h : l <+: p) (hb : p[l.length]? = some b) :
+    l ++ [b] <+: p := by
+  obtain ⟨r, rfl⟩ := h
+  cases r with
+  | nil => simp at hb
+  | cons x r =>
+    have : x = b := by simpa using hb
+    subst this
+    exact ⟨r, by simp⟩
+
+/-- one step keeps `Own` — GIVEN that the state before it is exclusive (`hex`) -/
+theorem bstep_own {pay : Tid → List Byte} {σ σ' : BSt} (s : BStep) (hex : Inv σ.core) (h : Own pay σ)
+    (hs : bstep pay σ s = some σ') : Own pay σ' := by
+  obtain ⟨hh, ho⟩ := h
+  cases s with
+  | acquire t =>
+    simp only [bstep, Option.some.injEq] at hs
+    subst hs
+    have hacq := C13_acquire_fresh_or_cached hex t
+    simp only at hacq
+    obtain ⟨_, hfresh, hheld, _⟩ := hacq
+    refine ⟨?_, ho⟩
+    intro p hp
+    simp only [hheld, List.mem_cons] at hp
+    rcases hp with rfl | hp
+    · simp [upd, upd2]
+    · -- an object somebody else holds is not the one just handed out: its buffer is not reset
+      have hne : p.2 ≠ (acquire σ.core t).2 := by
+        intro he
+        exact hfresh (List.mem_map.mpr ⟨p, hp, he⟩)
+      have := hh p hp
+      simp only [upd, upd2, hne, if_false, and_false]
+      exact this
+  | write t o =>
+    simp only [bstep] at hs
+    split at hs
+    · rename_i hm
+      split at hs
+      · simp only [Option.some.injEq] at hs; subst hs; exact ⟨hh, ho⟩
+      · rename_i b hb
+        simp only [Option.some.injEq] at hs
+        subst hs
+        refine ⟨?_, ho⟩
+        intro p hp
+        have hp' : p ∈ σ.core.held := hp
+        by_cases hpo : p.2 = o
+        · -- the same object: then the same holder (exclusivity), and the byte is its own next byte
+          have hpt : p.1 = t := held_unique hex (t := p.1) (t' := t) (o := o) (by rw [← hpo]; exact hp') hm
+          obtain ⟨h1, h2⟩ := hh (t, o) hm
+          simp only at h1 h2
+          simp only [upd, upd2, hpo, hpt, if_true, and_self, h1, true_and]
+          rw [h1] at h2
+          exact prefix_snoc_getElem? h2 hb
+        · have := hh p hp'
+          simp only [upd, upd2, hpo, if_false, and_false]
+          exact this
+    · cases hs
+  | release t o =>
+    simp only [bstep] at hs
+    split at hs
+    · rename_i hm
+      simp only [Option.some.injEq] at hs
+      subst hs
+      have hheld : (release σ.core t o).held = σ.core.held.erase (t, o) := by
+        unfold release; split <;> rfl
+      refine ⟨?_, ?_⟩
+      · intro p hp
+        simp only [hheld] at hp
+        exact hh p (List.mem_of_mem_erase hp)
+      · intro d hd
+        simp only [List.mem_cons] at hd
+        rcases hd with rfl | hd
+        · exact (hh (t, o) hm).2
+        · exact ho d hd
+    · cases hs
+
+/-- **C13, concurrent responses carry their own payload.**  In every reachable state — any capacity
+    (0 and 1 included), any number of requests in flight, every interleaving of acquisitions,
+    single-byte writes and releases —: the buffer of an object a request holds contains exactly the
+    bytes that request has written through it, a prefix of its own payload (no foreign byte, none
+    lost), and every response delivered so far is a prefix of the payload of the request it was
+    delivered to (all of it, when the request had written all of it: `own_payload_complete`).
+    A consequence of `C13_exclusive` (`breachable_exclusive`) and of the `Reset` at acquisition. -/
+theorem C13_own_payload (pay : Tid → List Byte) (cap : Nat) (σ : BSt) (h : BReachable pay cap σ) :
+    (∀ t o, (t, o) ∈ σ.core.held → σ.buf o = σ.sent t o ∧ σ.buf o <+: pay t) ∧
+    (∀ t b, (t, b) ∈ σ.out → b <+: pay t) := by
+  have hown : Own pay σ := by
+    induction h with
+    | init => exact ⟨fun p hp => (by cases hp), fun d hd => (by cases hd)⟩
+    | step s hprev hs ih => exact bstep_own s (breachable_exclusive hprev) ih hs
+  exact ⟨fun t o hm => hown.1 (t, o) hm, fun t b hm => hown.2 (t, b) hm⟩
+
+theorem breachable_brun (pay : Tid → List Byte) (cap : Nat) (sched : List BStep) :
+    BReachable pay cap (brun pay (binit cap) sched) := by
+  have : ∀ (τ : BSt), BReachable pay cap τ → BReachable pay cap (brun pay τ sched) := by
+    induction sched with
+    | nil => intro τ h; exact h
+    | cons s rest ih =>
+      intro τ h
+      apply ih
+      cases hs : bstep pay τ s with
+      | none => simpa using h
+      | some τ' => simpa using BReachable.step s h hs
+  exact this _ BReachable.init
+
+/-- the same for schedules -/
+theorem C13_own_payload_run (pay : Tid → List Byte) (cap : Nat) (sched : List BStep) :
+    let σ := brun pay (binit cap) sched
+    (∀ t o, (t, o) ∈ σ.core.held → σ.buf o = σ.sent t o ∧ σ.buf o <+: pay t) ∧
+    (∀ t b, (t, b) ∈ σ.out → b <+: pay t) :=
+  C13_own_payload pay cap _ (breachable_brun pay cap sched)
+
+/-- a delivered response that is as long as the payload IS the payload -/
+theorem own_payload_complete {pay : Tid → List Byte} {cap : Nat} {σ : BSt} (h : BReachable pay cap σ)
+    {t : Tid} {b : List Byte} (hm : (t, b) ∈ σ.out) (hl : b.length = (pay t).length) : b = pay t := by
+  obtain ⟨r, hr⟩ := (C13_own_payload pay cap σ h).2 t b hm
+  have : r = [] := by
+    have := congrArg List.length hr
+    simp only [List.length_append] at this
+    exact List.eq_nil_of_length_eq_zero (by omega)
+  simpa [this] using hr
+
+/-- why exclusivity is the hypothesis: from a state in which two requests hold the SAME object (what
+    a provider handing out an object in use produces) one write of each leaves a foreign byte in
+    front of request 1's bytes and the buffer is not what either of them sent -/
+theorem own_payload_needs_exclusive :
+    let pay : Tid → List Byte := fun t => if t = 0 then [10, 11] else [20, 21]
+    let bad : BSt := { core := { cap := 1, chan := [], held := [(0, 0), (1, 0)], next := 1 },
+                       buf := fun _ => [], sent := fun _ _ => [], out := [] }
+    let σ := brun pay bad [.write 0 0, .write 1 0, .release 1 0]
+    ¬ Inv bad.core ∧ σ.out = [(1, [10, 20])] ∧ ¬ ([10, 20] <+: pay 1) := by
+  refine ⟨?_, by decide, by decide⟩
+  unfold Inv
+  decide
+
 /-! ### F13: the OLD release protocol could block
 
 **This is NOT the current code.**  Before the repair, `Release` was
